@@ -166,7 +166,18 @@ def _net_mutators(directed):
         o.randomly_rewire(int(r.integers(1, 6)))
         return {**m, "A": np.asarray(o.sp_A.toarray(), dtype=np.int8),
                 "attrs": {}}
+    def node_attr(o, m, r):
+        # a node attribute of the owner's, set and removed again: nothing
+        # any measure reports depends on it
+        vals = [float(v) for v in r.integers(0, 9, int(o.N))]
+        o.set_node_attribute("owner_tag", vals)
+        if list(o.node_attribute("owner_tag")) != vals:
+            raise AssertionError("node attribute not stored as given")
+        if r.random() < 0.7:
+            o.del_node_attribute("owner_tag")
+        return dict(m)
     return [("adjacency=", adj_same), ("adjacency=sparse", adj_sparse),
+            ("set+del_node_attribute", node_attr),
             ("adjacency=newN+node_weights=", adj_newN),
             ("set_edge_list", edge_list),
             ("set_edge_list(no n_nodes)+node_weights=", edge_list_span),
